@@ -34,21 +34,780 @@ def OpsMono : St → List Op → Prop
   | _, [] => True
   | s, op :: rest => OpMono s op ∧ OpsMono (step s op) rest
 
+/-! generic list lemmas -/
+theorem lookup_append_some {α β} [BEq α] {l₁ l₂ : List (α × β)} {k : α} {v : β} (h : l₁.lookup k = some v) :
+    (l₁ ++ l₂).lookup k = some v := by
+  rw [List.lookup_append, h]; rfl
+
+theorem lookup_fresh_none {β} {M : List (Nat × β)} {n k : Nat} (h : ∀ p ∈ M, p.1 < n) (hk : n ≤ k) : M.lookup k = none := by
+  rw [List.lookup_eq_none_iff]
+  intro p hp
+  have := h p hp
+  simp; omega
+
+theorem lookup_append_fresh {β} {M : List (Nat × β)} {n k : Nat} (h : ∀ p ∈ M, p.1 < n) (hk : n ≤ k) (W : List (Nat × β)) :
+    (M ++ W).lookup k = W.lookup k := by
+  rw [List.lookup_append, lookup_fresh_none h hk]; rfl
+
+theorem lookup_notin_none {β} {M : List (Nat × β)} {k : Nat} (h : k ∉ M.map (·.1)) : M.lookup k = none := by
+  rw [List.lookup_eq_none_iff]
+  intro p hp
+  have : p.1 ≠ k := fun e => h (List.mem_map.2 ⟨p, hp, e⟩)
+  simp; omega
+
+theorem lookup_filter_key {β} (q : Nat → Bool) (k : Nat) (hq : q k = true) :
+    ∀ (M : List (Nat × β)), (M.filter fun p => q p.1).lookup k = M.lookup k
+  | [] => rfl
+  | (a, b) :: M => by
+    by_cases hak : k = a
+    · subst hak
+      simp [hq]
+    · have : (k == a) = false := by simpa using hak
+      by_cases hqa : q a = true
+      · simp [hqa, List.lookup_cons, this, lookup_filter_key q k hq M]
+      · simp [hqa, List.lookup_cons, this, lookup_filter_key q k hq M]
+
+/-! resolution of manifest names -/
+def res (M : List (Nat × List Nat)) : List Nat → Option (List (Nat × List Nat))
+  | [] => some []
+  | m :: r => match M.lookup m, res M r with
+    | some ds, some t => some ((m, ds) :: t)
+    | _, _ => none
+
+theorem mapM_eq_res (M : List (Nat × List Nat)) : ∀ (l : List Nat),
+    l.mapM (fun m => (M.lookup m).map fun ds => (m, ds)) = res M l
+  | [] => rfl
+  | m :: r => by
+    rw [List.mapM_cons, mapM_eq_res M r, res]
+    cases M.lookup m <;> cases res M r <;> rfl
+
+theorem manifestsOf_eq (f : Files) (l : Nat) :
+    manifestsOf f l = match f.mlists.lookup l with | none => none | some ms => res f.manifests ms := by
+  unfold manifestsOf
+  split <;> simp [*, mapM_eq_res]
+
+theorem res_cons_some {M : List (Nat × List Nat)} {m : Nat} {r : List Nat} {ds t}
+    (h1 : M.lookup m = some ds) (h2 : res M r = some t) : res M (m :: r) = some ((m, ds) :: t) := by
+  simp [res, h1, h2]
+
+theorem res_spec {M : List (Nat × List Nat)} : ∀ {l : List Nat} {x}, res M l = some x →
+    x.map (·.1) = l ∧ ∀ p ∈ x, M.lookup p.1 = some p.2
+  | [], x, h => by simp [res] at h; subst h; simp
+  | m :: r, x, h => by
+    simp only [res] at h
+    split at h
+    · rename_i ds t h1 h2
+      cases h
+      obtain ⟨ih1, ih2⟩ := res_spec h2
+      refine ⟨by simp [ih1], ?_⟩
+      intro p hp
+      rcases List.mem_cons.1 hp with rfl | hp
+      · exact h1
+      · exact ih2 p hp
+    · cases h
+
+theorem res_of_lookup {M : List (Nat × List Nat)} : ∀ (ms : List (Nat × List Nat)), (∀ p ∈ ms, M.lookup p.1 = some p.2) →
+    res M (ms.map (·.1)) = some ms
+  | [], _ => rfl
+  | p :: ms, h => by
+    have := res_of_lookup ms (fun q hq => h q (List.mem_cons_of_mem _ hq))
+    simp only [List.map_cons]
+    rw [res_cons_some (h p (List.mem_cons_self ..)) this]
+
+theorem res_congr {M M' : List (Nat × List Nat)} : ∀ (l : List Nat), (∀ m ∈ l, M'.lookup m = M.lookup m) → res M' l = res M l
+  | [], _ => rfl
+  | m :: r, h => by
+    simp only [res]
+    rw [h m (List.mem_cons_self ..), res_congr r (fun q hq => h q (List.mem_cons_of_mem _ hq))]
+
+theorem res_mono {M M' : List (Nat × List Nat)} (hM : ∀ k v, M.lookup k = some v → M'.lookup k = some v) {l : List Nat} {x}
+    (h : res M l = some x) : res M' l = some x := by
+  obtain ⟨h1, h2⟩ := res_spec h
+  rw [← h1]
+  exact res_of_lookup x (fun p hp => hM _ _ (h2 p hp))
+
+
+
+abbrev nd (deleted : List Nat) : Nat → Bool := fun d => !deleted.contains d
+abbrev flat (ms : List (Nat × List Nat)) : List Nat := (ms.map (·.2)).flatten
+
+theorem rewriteAll_spec (deleted : List Nat) : ∀ (ms : List (Nat × List Nat)) (nx : Nat) (written : List (Nat × List Nat)) (final : List Nat)
+    (nx' : Nat) (written' : List (Nat × List Nat)) (final' : List Nat),
+    rewriteAll deleted ms nx written final = (nx', written', final') →
+    ∃ wn fn, written' = written ++ wn ∧ final' = final ++ fn ∧ nx ≤ nx' ∧ (∀ p ∈ wn, p.1 < nx') ∧
+      ∀ M : List (Nat × List Nat), (∀ p ∈ M, p.1 < nx) → (∀ p ∈ ms, M.lookup p.1 = some p.2) →
+        ∃ r, res (M ++ wn) fn = some r ∧ flat r = (flat ms).filter (nd deleted)
+  | [], nx, written, final, nx', written', final', h => by
+    simp only [rewriteAll, Prod.mk.injEq] at h
+    obtain ⟨rfl, rfl, rfl⟩ := h
+    exact ⟨[], [], by simp, by simp, Nat.le_refl _, by simp, fun M _ _ => ⟨[], rfl, rfl⟩⟩
+  | m :: rest, nx, written, final, nx', written', final', h => by
+    rw [rewriteAll] at h
+    split at h
+    · rename_i hlen
+      obtain ⟨wn, fn, h1, h2, h3, h4, h5⟩ := rewriteAll_spec deleted rest _ _ _ _ _ _ h
+      refine ⟨wn, m.1 :: fn, h1, by simp [h2], h3, h4, ?_⟩
+      intro M hM hms
+      obtain ⟨r, hr1, hr2⟩ := h5 M hM (fun p hp => hms p (List.mem_cons_of_mem _ hp))
+      refine ⟨(m.1, m.2) :: r, res_cons_some (lookup_append_some (hms m (List.mem_cons_self ..))) hr1, ?_⟩
+      have : m.2.filter (nd deleted) = m.2 := by
+        rw [List.filter_eq_self, ← List.length_filter_eq_length_iff]
+        simpa using hlen
+      simp only [flat, List.map_cons, List.flatten_cons, List.filter_append] at hr2 ⊢
+      rw [hr2, this]
+    · split at h
+      · rename_i hlen hemp
+        obtain ⟨wn, fn, h1, h2, h3, h4, h5⟩ := rewriteAll_spec deleted rest _ _ _ _ _ _ h
+        refine ⟨wn, fn, h1, h2, h3, h4, ?_⟩
+        intro M hM hms
+        obtain ⟨r, hr1, hr2⟩ := h5 M hM (fun p hp => hms p (List.mem_cons_of_mem _ hp))
+        refine ⟨r, hr1, ?_⟩
+        have : m.2.filter (nd deleted) = [] := by simpa using hemp
+        simp only [flat, List.map_cons, List.flatten_cons, List.filter_append] at hr2 ⊢
+        rw [hr2, this]; rfl
+      · rename_i hlen hemp
+        obtain ⟨wn, fn, h1, h2, h3, h4, h5⟩ := rewriteAll_spec deleted rest _ _ _ _ _ _ h
+        refine ⟨(nx, m.2.filter (nd deleted)) :: wn, nx :: fn, by rw [h1, List.append_assoc]; rfl,
+          by rw [h2, List.append_assoc]; rfl, by omega, ?_, ?_⟩
+        · intro p hp
+          rcases List.mem_cons.1 hp with rfl | hp
+          · show nx < nx'; omega
+          · exact h4 p hp
+        · intro M hM hms
+          obtain ⟨r, hr1, hr2⟩ := h5 (M ++ [(nx, m.2.filter (nd deleted))])
+            (by
+              intro p hp
+              rcases List.mem_append.1 hp with hp | hp
+              · have := hM p hp; omega
+              · simp at hp; subst hp; simp)
+            (fun p hp => lookup_append_some (hms p (List.mem_cons_of_mem _ hp)))
+          rw [List.append_assoc] at hr1
+          refine ⟨(nx, m.2.filter (nd deleted)) :: r, res_cons_some ?_ hr1, ?_⟩
+          · rw [lookup_append_fresh hM (Nat.le_refl _)]
+            simp
+          · simp only [flat, List.map_cons, List.flatten_cons, List.filter_append] at hr2 ⊢
+            rw [hr2]
+
+
+
+def baseOf (s : St) : Option (List (Nat × List Nat)) :=
+  match s.md.cur with
+  | P.id c => (match s.mlistOf.lookup c with | none => none | some l => manifestsOf s.files l)
+  | _ => some []
+
+abbrev newDataOf (s : St) (nApp : Nat) : List Nat := (List.range nApp).map (· + s.nextD)
+
+def plan (s : St) (nApp : Nat) (deleted : List Nat) (ms : List (Nat × List Nat)) : Nat × List (Nat × List Nat) × List Nat :=
+  let p1 := if deleted.isEmpty then (s.nextM, [], ms.map (·.1)) else rewriteAll deleted ms s.nextM [] []
+  if nApp == 0 then p1 else (p1.1 + 1, p1.2.1 ++ [(p1.1, newDataOf s nApp)], p1.2.2 ++ [p1.1])
+
+def mkW (s : St) (nApp : Nat) (p : Nat × List (Nat × List Nat) × List Nat) : Written :=
+  { files := { manifests := s.files.manifests ++ p.2.1, mlists := s.files.mlists ++ [(s.nextL, p.2.2)],
+               data := s.files.data ++ newDataOf s nApp },
+    nextD := s.nextD + nApp, nextM := p.1, nextL := s.nextL + 1, mlist := s.nextL, newData := newDataOf s nApp }
+
+theorem writeFiles_eq (s : St) (nApp : Nat) (deleted : List Nat) :
+    writeFiles s nApp deleted = (baseOf s).map fun ms => mkW s nApp (plan s nApp deleted ms) := by
+  have key : ∀ ms : List (Nat × List Nat),
+      (match (if deleted.isEmpty = true then (s.nextM, ([] : List (Nat × List Nat)), List.map (fun x => x.fst) ms)
+        else rewriteAll deleted ms s.nextM [] []) with
+      | (nm, written, final) =>
+        match
+          (if (nApp == 0) = true then (nm, written, final) else (nm + 1, written ++ [(nm, newDataOf s nApp)], final ++ [nm])) with
+        | (nm', written', final') =>
+          some
+            ({
+              files :=
+                { manifests := s.files.manifests ++ written', mlists := s.files.mlists ++ [(s.nextL, final')],
+                  data := s.files.data ++ newDataOf s nApp },
+              nextD := s.nextD + nApp, nextM := nm', nextL := s.nextL + 1, mlist := s.nextL, newData := newDataOf s nApp } : Written))
+        = some (mkW s nApp (plan s nApp deleted ms)) := by
+    intro ms
+    rfl
+  unfold writeFiles baseOf
+  cases s.md.cur with
+  | id c =>
+    simp only []
+    cases List.lookup c s.mlistOf with
+    | none => rfl
+    | some l =>
+      simp only []
+      cases manifestsOf s.files l with
+      | none => rfl
+      | some ms => exact key ms
+  | none => exact key []
+  | root => exact key []
+
+
+
+theorem res_append_some {M : List (Nat × List Nat)} : ∀ {a b : List Nat} {x y}, res M a = some x → res M b = some y →
+    res M (a ++ b) = some (x ++ y)
+  | [], b, x, y, h1, h2 => by simp [res] at h1; subst h1; simpa using h2
+  | m :: a, b, x, y, h1, h2 => by
+    simp only [res] at h1
+    split at h1
+    · rename_i ds t e1 e2
+      cases h1
+      exact res_cons_some e1 (res_append_some e2 h2)
+    · cases h1
+
+theorem flat_append (a b : List (Nat × List Nat)) : flat (a ++ b) = flat a ++ flat b := by simp [flat]
+
+theorem plan1_spec (s : St) (deleted : List Nat) (ms : List (Nat × List Nat))
+    (hM : ∀ p ∈ s.files.manifests, p.1 < s.nextM) (hms : ∀ p ∈ ms, s.files.manifests.lookup p.1 = some p.2)
+    (p1 : Nat × List (Nat × List Nat) × List Nat)
+    (hp : p1 = if deleted.isEmpty then (s.nextM, [], ms.map (·.1)) else rewriteAll deleted ms s.nextM [] []) :
+    s.nextM ≤ p1.1 ∧ (∀ q ∈ p1.2.1, q.1 < p1.1) ∧
+      ∃ r, res (s.files.manifests ++ p1.2.1) p1.2.2 = some r ∧ flat r = (flat ms).filter (nd deleted) := by
+  split at hp
+  · rename_i hd
+    subst hp
+    have : deleted = [] := by simpa using hd
+    subst this
+    refine ⟨Nat.le_refl _, by simp, ms, ?_, (List.filter_eq_self.2 (fun a _ => by simp [nd])).symm⟩
+    simpa using res_of_lookup ms hms
+  · obtain ⟨a, b, c⟩ := p1
+    obtain ⟨wn, fn, h1, h2, h3, h4, h5⟩ := rewriteAll_spec deleted ms s.nextM [] [] a b c hp.symm
+    simp only [List.nil_append] at h1 h2
+    subst h1 h2
+    exact ⟨h3, h4, h5 _ hM hms⟩
+
+theorem plan_spec (s : St) (nApp : Nat) (deleted : List Nat) (ms : List (Nat × List Nat))
+    (hM : ∀ p ∈ s.files.manifests, p.1 < s.nextM) (hms : ∀ p ∈ ms, s.files.manifests.lookup p.1 = some p.2) :
+    s.nextM ≤ (plan s nApp deleted ms).1 ∧ (∀ q ∈ (plan s nApp deleted ms).2.1, q.1 < (plan s nApp deleted ms).1) ∧
+      ∃ r, res (s.files.manifests ++ (plan s nApp deleted ms).2.1) (plan s nApp deleted ms).2.2 = some r ∧
+        flat r = (flat ms).filter (nd deleted) ++ newDataOf s nApp := by
+  unfold plan
+  generalize hp : (if deleted.isEmpty then (s.nextM, [], ms.map (·.1)) else rewriteAll deleted ms s.nextM [] []) = p1
+  obtain ⟨h1, h2, r, h3, h4⟩ := plan1_spec s deleted ms hM hms p1 hp.symm
+  simp only []
+  split
+  · rename_i h0
+    have : nApp = 0 := by simpa using h0
+    subst this
+    exact ⟨h1, h2, r, h3, by simp [h4]⟩
+  · refine ⟨by simp only []; omega, ?_, r ++ [(p1.1, newDataOf s nApp)], ?_, ?_⟩
+    · intro q hq
+      simp only [] at hq ⊢
+      rcases List.mem_append.1 hq with hq | hq
+      · have := h2 q hq; omega
+      · simp at hq; subst hq; simp
+    · simp only []
+      rw [← List.append_assoc]
+      refine res_append_some (res_mono (fun k v h => lookup_append_some h) h3) (res_cons_some ?_ rfl)
+      rw [lookup_append_fresh (n := p1.1) ?_ (Nat.le_refl _)]
+      · simp
+      · intro q hq
+        rcases List.mem_append.1 hq with hq | hq
+        · have := hM q hq; omega
+        · exact h2 q hq
+    · rw [flat_append, h4]; simp [flat]
+
+
+
+theorem filesOf_some {f : Files} {l : Nat} {c : List Nat} :
+    filesOf f l = some c ↔ ∃ names ms, f.mlists.lookup l = some names ∧ res f.manifests names = some ms ∧ flat ms = c ∧
+      ∀ d ∈ c, d ∈ f.data := by
+  unfold filesOf
+  rw [manifestsOf_eq]
+  cases h1 : f.mlists.lookup l with
+  | none => simp
+  | some names =>
+    simp only []
+    cases h2 : res f.manifests names with
+    | none => simp [h2]
+    | some ms =>
+      simp only []
+      constructor
+      · intro h
+        split at h
+        · rename_i hall
+          cases h
+          refine ⟨names, ms, rfl, h2, rfl, ?_⟩
+          intro d hd
+          have := List.all_eq_true.1 hall d hd
+          simpa using this
+        · cases h
+      · rintro ⟨names', ms', e1, e2, e3, e4⟩
+        cases e1; rw [h2] at e2; cases e2
+        have : ((ms.map (·.2)).flatten.all f.data.contains) = true := by
+          rw [List.all_eq_true]
+          intro d hd
+          have := e4 d (e3 ▸ hd)
+          simpa using this
+        rw [if_pos this, ← e3]
+
+structure Ext (f f' : Files) : Prop where
+  ml : ∀ k v, f.mlists.lookup k = some v → f'.mlists.lookup k = some v
+  mf : ∀ k v, f.manifests.lookup k = some v → f'.manifests.lookup k = some v
+  dt : ∀ d ∈ f.data, d ∈ f'.data
+
+theorem filesOf_mono {f f' : Files} (h : Ext f f') {l : Nat} {c : List Nat} (hc : filesOf f l = some c) : filesOf f' l = some c := by
+  obtain ⟨names, ms, h1, h2, h3, h4⟩ := filesOf_some.1 hc
+  exact filesOf_some.2 ⟨names, ms, h.ml _ _ h1, res_mono h.mf h2, h3, fun d hd => h.dt d (h4 d hd)⟩
+
+structure Inv (s : St) : Prop where
+  wf : WF s.md
+  mfresh : ∀ p ∈ s.files.manifests, p.1 < s.nextM
+  lfresh : ∀ p ∈ s.files.mlists, p.1 < s.nextL
+  histC : s.committed.map (·.1) = s.md.hist.map (·.1)
+  histL : s.mlistOf.map (·.1) = s.md.hist.map (·.1)
+  good : ∀ i ∈ s.md.ids, ∃ c, s.committed.lookup i = some c ∧ content s i = some c
+
+def baseContent (s : St) : List Nat := match s.md.cur with | P.id cur => (content s cur).getD [] | _ => []
+
+theorem base_spec (s : St) (hI : Inv s) (ms : List (Nat × List Nat)) (hb : baseOf s = some ms) :
+    (∀ p ∈ ms, s.files.manifests.lookup p.1 = some p.2) ∧ flat ms = baseContent s ∧ ∀ d ∈ flat ms, d ∈ s.files.data := by
+  unfold baseOf at hb
+  unfold baseContent
+  cases hcur : s.md.cur with
+  | id c =>
+    rw [hcur] at hb
+    simp only [] at hb ⊢
+    have hc : c ∈ s.md.ids := by
+      rcases hI.wf.curOk with h | ⟨h, -⟩ | ⟨sn, hsn, h⟩
+      · rw [hcur] at h; cases h
+      · rw [hcur] at h; cases h
+      · rw [hcur] at h; cases h; exact List.mem_map.2 ⟨sn, hsn, rfl⟩
+    obtain ⟨cc, -, h2⟩ := hI.good c hc
+    rw [h2]
+    unfold content at h2
+    cases hl : s.mlistOf.lookup c with
+    | none => rw [hl] at h2; cases h2
+    | some l =>
+      rw [hl] at h2 hb
+      simp only [] at h2 hb
+      obtain ⟨names, ms', e1, e2, e3, e4⟩ := filesOf_some.1 h2
+      rw [manifestsOf_eq, e1] at hb
+      simp only [] at hb
+      rw [e2] at hb
+      cases hb
+      exact ⟨(res_spec e2).2, e3, e3 ▸ e4⟩
+  | none => rw [hcur] at hb; cases hb; simp [flat]
+  | root => rw [hcur] at hb; cases hb; simp [flat]
+
+theorem writeFiles_spec (s : St) (hI : Inv s) (nApp : Nat) (deleted : List Nat) (w : Written)
+    (h : writeFiles s nApp deleted = some w) :
+    (∀ p ∈ w.files.manifests, p.1 < w.nextM) ∧ (∀ p ∈ w.files.mlists, p.1 < w.nextL) ∧ Ext s.files w.files ∧
+    w.mlist = s.nextL ∧ s.nextM ≤ w.nextM ∧ w.nextL = s.nextL + 1 ∧
+    filesOf w.files w.mlist = some ((baseContent s).filter (nd deleted) ++ newDataOf s nApp) := by
+  rw [writeFiles_eq] at h
+  cases hb : baseOf s with
+  | none => rw [hb] at h; cases h
+  | some ms =>
+    rw [hb] at h
+    simp only [Option.map, Option.some.injEq] at h
+    subst h
+    obtain ⟨b1, b2, b3⟩ := base_spec s hI ms hb
+    obtain ⟨p1, p2, r, p3, p4⟩ := plan_spec s nApp deleted ms hI.mfresh b1
+    refine ⟨?_, ?_, ⟨fun k v h => lookup_append_some h, fun k v h => lookup_append_some h, fun d hd => List.mem_append_left _ hd⟩,
+      rfl, p1, rfl, ?_⟩
+    · intro p hp
+      rcases List.mem_append.1 hp with hp | hp
+      · have := hI.mfresh p hp; simp only [mkW]; omega
+      · exact p2 p hp
+    · intro p hp
+      rcases List.mem_append.1 hp with hp | hp
+      · have := hI.lfresh p hp; simp only [mkW]; omega
+      · simp at hp; subst hp; simp [mkW]
+    · refine filesOf_some.2 ⟨_, r, ?_, p3, ?_, ?_⟩
+      · simp only [mkW]
+        rw [lookup_append_fresh hI.lfresh (Nat.le_refl _)]
+        simp
+      · rw [p4, b2]
+      · intro d hd
+        simp only [mkW]
+        rcases List.mem_append.1 hd with hd | hd
+        · refine List.mem_append_left _ (b3 d ?_)
+          rw [b2]
+          exact (List.mem_filter.1 hd).1
+        · exact List.mem_append_right _ hd
+
+
+
+/-! metadata: ids only shrink, hist only grows by the committed id -/
+theorem expire_hist (c : Nat) (m : Meta) : (expire c m).hist = m.hist := rfl
+
+theorem expire_ids_sub (c : Nat) (m : Meta) : ∀ i ∈ (expire c m).ids, i ∈ m.ids := by
+  intro i hi
+  unfold expire Meta.ids at hi
+  simp only [repoint_ids] at hi
+  obtain ⟨sn, hsn, rfl⟩ := List.mem_map.1 hi
+  exact List.mem_map.2 ⟨sn, (List.mem_filter.1 hsn).1, rfl⟩
+
+theorem retain_hist (m : Meta) : (retain m).hist = m.hist := by
+  unfold retain
+  split
+  · rfl
+  · split <;> rfl
+
+theorem retain_ids_sub (m : Meta) : ∀ i ∈ (retain m).ids, i ∈ m.ids := by
+  intro i hi
+  unfold retain at hi
+  split at hi
+  · exact hi
+  · split at hi
+    · exact hi
+    · unfold Meta.ids at hi
+      simp only [repoint_ids] at hi
+      obtain ⟨sn, hsn, rfl⟩ := List.mem_map.1 hi
+      have := (List.mem_filter.1 hsn).1
+      unfold sortByTs at this
+      exact List.mem_map.2 ⟨sn, (List.mergeSort_perm _ _).mem_iff.1 this, rfl⟩
+
+theorem delSnap_hist (id : Nat) (m m' : Meta) (hd : delSnap id m = some m') : m'.hist = m.hist := by
+  obtain ⟨-, rfl⟩ := delSnap_spec id m m' hd
+  split <;> rfl
+
+theorem delSnap_ids_sub (id : Nat) (m m' : Meta) (hd : delSnap id m = some m') : ∀ i ∈ m'.ids, i ∈ m.ids := by
+  obtain ⟨-, rfl⟩ := delSnap_spec id m m' hd
+  have key : ∀ i ∈ (delRaw id m).ids, i ∈ m.ids := by
+    intro i hi
+    unfold delRaw Meta.ids at hi
+    simp only [repoint_ids] at hi
+    obtain ⟨sn, hsn, rfl⟩ := List.mem_map.1 hi
+    exact List.mem_map.2 ⟨sn, List.eraseP_sublist.subset hsn, rfl⟩
+  split
+  · exact key
+  · exact key
+
+theorem addSnap_ok_eq (now id : Nat) (cutoff : Option Nat) (m m' : Meta) (h : addSnap now id cutoff m = .ok m') :
+    m' = retain (addRaw now id m) ∨ ∃ c, m' = retain (expire c (addRaw now id m)) := by
+  rw [addSnap_eq] at h
+  cases cutoff with
+  | none =>
+    simp only [] at h
+    split at h
+    · cases h
+    · cases h; exact Or.inl rfl
+  | some c =>
+    simp only [] at h
+    split at h
+    · cases h
+    · cases h; exact Or.inr ⟨c, rfl⟩
+
+theorem addSnap_ok (now id : Nat) (cutoff : Option Nat) (m m' : Meta) (h : addSnap now id cutoff m = .ok m') :
+    m'.hist.map (·.1) = m.hist.map (·.1) ++ [id] ∧ (∀ i ∈ m'.ids, i ∈ m.ids ∨ i = id) ∧
+    m' = Meta.step m (.add now id cutoff) := by
+  refine ⟨?_, ?_, by simp [Meta.step, h]⟩
+  · rcases addSnap_ok_eq now id cutoff m m' h with rfl | ⟨c, rfl⟩
+    · rw [retain_hist]; simp [addRaw]
+    · rw [retain_hist, expire_hist]; simp [addRaw]
+  · intro i hi
+    have h2 : i ∈ (addRaw now id m).ids := by
+      rcases addSnap_ok_eq now id cutoff m m' h with rfl | ⟨c, rfl⟩
+      · exact retain_ids_sub _ i hi
+      · exact expire_ids_sub c _ i (retain_ids_sub _ i hi)
+    simp only [addRaw, Meta.ids, List.map_append, List.map_cons, List.map_nil, List.mem_append, List.mem_singleton] at h2
+    exact h2
+
+
+
+/-! collection -/
+def reachF (s : St) (acc : Option Files) (sn : Snap) : Option Files :=
+  match acc, s.mlistOf.lookup sn.id with
+  | some r, some l =>
+    (match manifestsOf s.files l with
+     | some ms => some { mlists := r.mlists ++ [(l, [])], manifests := r.manifests ++ ms, data := r.data ++ (ms.map (·.2)).flatten }
+     | none => none)
+  | _, _ => none
+
+theorem reach_eq (s : St) : reach s = s.md.snaps.foldl (reachF s) (some ⟨[], [], []⟩) := rfl
+
+theorem foldl_reachF_none (s : St) : ∀ (l : List Snap), l.foldl (reachF s) none = none
+  | [] => rfl
+  | sn :: l => by simp only [List.foldl_cons, reachF]; exact foldl_reachF_none s l
+
+theorem reach_acc (s : St) : ∀ (snaps : List Snap) (acc r : Files), snaps.foldl (reachF s) (some acc) = some r →
+    ((∀ p ∈ acc.mlists, p ∈ r.mlists) ∧ (∀ p ∈ acc.manifests, p ∈ r.manifests) ∧ (∀ d ∈ acc.data, d ∈ r.data)) ∧
+    ∀ sn ∈ snaps, ∃ l ms, s.mlistOf.lookup sn.id = some l ∧ manifestsOf s.files l = some ms ∧
+      (l, []) ∈ r.mlists ∧ (∀ p ∈ ms, p ∈ r.manifests) ∧ ∀ d ∈ flat ms, d ∈ r.data
+  | [], acc, r, h => by
+    simp only [List.foldl_nil, Option.some.injEq] at h
+    subst h
+    exact ⟨⟨fun _ h => h, fun _ h => h, fun _ h => h⟩, by simp⟩
+  | sn :: rest, acc, r, h => by
+    simp only [List.foldl_cons] at h
+    cases hl : s.mlistOf.lookup sn.id with
+    | none =>
+      simp only [reachF, hl] at h
+      rw [foldl_reachF_none] at h; cases h
+    | some l =>
+      cases hm : manifestsOf s.files l with
+      | none =>
+        simp only [reachF, hl, hm] at h
+        rw [foldl_reachF_none] at h; cases h
+      | some ms =>
+        simp only [reachF, hl, hm] at h
+        obtain ⟨⟨a1, a2, a3⟩, a4⟩ := reach_acc s rest _ r h
+        refine ⟨⟨fun p hp => a1 p (List.mem_append_left _ hp), fun p hp => a2 p (List.mem_append_left _ hp),
+          fun p hp => a3 p (List.mem_append_left _ hp)⟩, ?_⟩
+        intro sn' hsn'
+        rcases List.mem_cons.1 hsn' with rfl | hsn'
+        · exact ⟨l, ms, hl, hm, a1 _ (List.mem_append_right _ (List.mem_singleton.2 rfl)),
+            fun p hp => a2 p (List.mem_append_right _ hp), fun d hd => a3 d (List.mem_append_right _ hd)⟩
+        · exact a4 sn' hsn'
+
+theorem all_congr_mem {l : List Nat} {p q : Nat → Bool} (h : ∀ d ∈ l, p d = q d) : l.all p = l.all q := by
+  induction l with
+  | nil => rfl
+  | cons a l ih =>
+    simp only [List.all_cons]
+    rw [h a (List.mem_cons_self ..), ih (fun d hd => h d (List.mem_cons_of_mem _ hd))]
+
+theorem gc_keeps_gen (s : St) (cands : Files) : ∀ i ∈ s.md.ids, content (collect s cands) i = content s i := by
+  intro i hi
+  unfold collect
+  cases hr : reach s with
+  | none => rfl
+  | some r =>
+    obtain ⟨sn, hsn, rfl⟩ := List.mem_map.1 hi
+    rw [reach_eq] at hr
+    obtain ⟨-, h⟩ := reach_acc s _ _ r hr
+    obtain ⟨l, ms, h1, h2, h3, h4, h5⟩ := h sn hsn
+    unfold content
+    simp only [collectWith, h1]
+    rw [manifestsOf_eq] at h2
+    cases hn : s.files.mlists.lookup l with
+    | none => rw [hn] at h2; cases h2
+    | some names =>
+      rw [hn] at h2
+      simp only [] at h2
+      obtain ⟨e1, e2⟩ := res_spec h2
+      unfold filesOf
+      rw [manifestsOf_eq, manifestsOf_eq]
+      simp only []
+      rw [lookup_filter_key (fun k => !((cands.mlists.map (·.1)).filter fun l => !(r.mlists.map (·.1)).contains l).contains k) l
+        (by
+          have : l ∈ r.mlists.map (·.1) := List.mem_map.2 ⟨_, h3, rfl⟩
+          simp [this]), hn]
+      simp only []
+      rw [res_congr (M := s.files.manifests) names (by
+        intro m hm
+        refine lookup_filter_key (fun k => !((cands.manifests.map (·.1)).filter fun m => !(r.manifests.map (·.1)).contains m).contains k) m ?_ _
+        rw [← e1] at hm
+        obtain ⟨p, hp, rfl⟩ := List.mem_map.1 hm
+        have : p.1 ∈ r.manifests.map (·.1) := List.mem_map.2 ⟨_, h4 p hp, rfl⟩
+        simp [this]), h2]
+      simp only []
+      rw [all_congr_mem (q := s.files.data.contains)]
+      intro d hd
+      have : d ∈ r.data := h5 d hd
+      simp [this]
+
+
+/-! the invariant is preserved -/
+theorem Ext.refl (f : Files) : Ext f f := ⟨fun _ _ h => h, fun _ _ h => h, fun _ h => h⟩
+
+theorem content_mono {s s' : St} (hm : ∀ i l, s.mlistOf.lookup i = some l → s'.mlistOf.lookup i = some l)
+    (hf : Ext s.files s'.files) {i : Nat} {c : List Nat} (h : content s i = some c) : content s' i = some c := by
+  unfold content at h ⊢
+  cases hl : s.mlistOf.lookup i with
+  | none => rw [hl] at h; cases h
+  | some l =>
+    rw [hl] at h
+    rw [hm i l hl]
+    exact filesOf_mono hf h
+
+theorem good_transfer {s s' : St} (hids : ∀ i ∈ s'.md.ids, i ∈ s.md.ids)
+    (hm : ∀ i l, s.mlistOf.lookup i = some l → s'.mlistOf.lookup i = some l) (hf : Ext s.files s'.files)
+    (hc : ∀ i c, s.committed.lookup i = some c → s'.committed.lookup i = some c)
+    (hg : ∀ i ∈ s.md.ids, ∃ c, s.committed.lookup i = some c ∧ content s i = some c) :
+    ∀ i ∈ s'.md.ids, ∃ c, s'.committed.lookup i = some c ∧ content s' i = some c := by
+  intro i hi
+  obtain ⟨c, h1, h2⟩ := hg i (hids i hi)
+  exact ⟨c, hc i c h1, content_mono hm hf h2⟩
+
+theorem inv_init : Inv init :=
+  ⟨wf_empty'', by simp [init], by simp [init], rfl, rfl, by simp [init, Meta.empty, Meta.ids]⟩
+
+theorem inv_step (s : St) (op : Op) (hI : Inv s) (hop : OpOk s op) : Inv (step s op) := by
+  cases op with
+  | commit now id cutoff nApp deleted =>
+    simp only [step]
+    cases hw : writeFiles s nApp deleted with
+    | none => exact hI
+    | some w =>
+      obtain ⟨w1, w2, w3, w4, w5, w6, w7⟩ := writeFiles_spec s hI nApp deleted w hw
+      simp only []
+      cases ha : addSnap now id cutoff s.md with
+      | error e =>
+        simp only []
+        exact ⟨hI.wf, w1, w2, hI.histC, hI.histL, good_transfer (s := s) (fun _ h => h) (fun _ _ h => h) w3 (fun _ _ h => h) hI.good⟩
+      | ok md' =>
+        simp only []
+        obtain ⟨a1, a2, a3⟩ := addSnap_ok now id cutoff s.md md' ha
+        have hid : id ∉ s.md.hist.map (·.1) := hop
+        refine ⟨?_, w1, w2, ?_, ?_, ?_⟩
+        · show WF md'
+          rw [a3]; exact wf_step'' s.md (.add now id cutoff) hI.wf hop
+        · show (s.committed ++ [(id, _)]).map (fun x : Nat × List Nat => x.1) = md'.hist.map (fun x => x.1)
+          rw [a1, List.map_append, hI.histC]; rfl
+        · show (s.mlistOf ++ [(id, _)]).map (fun x : Nat × Nat => x.1) = md'.hist.map (fun x => x.1)
+          rw [a1, List.map_append, hI.histL]; rfl
+        · intro i hi
+          have hi' : i ∈ md'.ids := hi
+          by_cases him : i ∈ s.md.ids
+          · obtain ⟨c, h1, h2⟩ := hI.good i him
+            refine ⟨c, lookup_append_some h1, ?_⟩
+            exact content_mono (s := s) (fun _ _ h => lookup_append_some h) w3 h2
+          · have : i = id := (a2 i hi').resolve_left him
+            subst this
+            refine ⟨(baseContent s).filter (nd deleted) ++ newDataOf s nApp, ?_, ?_⟩
+            · show (s.committed ++ [(i, (filesOf w.files w.mlist).getD [])]).lookup i = _
+              rw [List.lookup_append, lookup_notin_none (by rw [hI.histC]; exact hid), w7]
+              simp only [Option.or, List.lookup_cons, beq_self_eq_true]
+              rfl
+            · show content _ i = _
+              unfold content
+              simp only []
+              rw [List.lookup_append, lookup_notin_none (by rw [hI.histL]; exact hid)]
+              simp only [Option.or, List.lookup_cons, beq_self_eq_true]
+              exact w7
+  | expire c =>
+    exact ⟨wf_expire c _ hI.wf, hI.mfresh, hI.lfresh, hI.histC, hI.histL,
+      good_transfer (s := s) (s' := { s with md := expireOnly c s.md }) (expire_ids_sub c s.md) (fun _ _ h => h) (Ext.refl _)
+        (fun _ _ h => h) hI.good⟩
+  | delSnap id =>
+    simp only [step]
+    cases hd : Meta.delSnap id s.md with
+    | none => exact hI
+    | some md' =>
+      exact ⟨wf_delSnap id _ _ hI.wf hd, hI.mfresh, hI.lfresh, by rw [hI.histC]; exact (congrArg _ (delSnap_hist id _ _ hd)).symm,
+        by rw [hI.histL]; exact (congrArg _ (delSnap_hist id _ _ hd)).symm,
+        good_transfer (s := s) (s' := { s with md := md' }) (delSnap_ids_sub id _ _ hd) (fun _ _ h => h) (Ext.refl _)
+          (fun _ _ h => h) hI.good⟩
+  | failed nApp deleted cleaned =>
+    simp only [step]
+    cases hw : writeFiles s nApp deleted with
+    | none => exact hI
+    | some w =>
+      obtain ⟨w1, w2, w3, w4, w5, w6, w7⟩ := writeFiles_spec s hI nApp deleted w hw
+      simp only []
+      cases cleaned with
+      | true =>
+        simp only [↓reduceIte]
+        refine ⟨hI.wf, ?_, ?_, hI.histC, hI.histL, good_transfer (fun _ h => h) (fun _ _ h => h) (Ext.refl _) (fun _ _ h => h) hI.good⟩
+        · intro p hp; have := hI.mfresh p hp; show p.1 < w.nextM; omega
+        · intro p hp; have := hI.lfresh p hp; show p.1 < w.nextL; omega
+      | false =>
+        simp only [Bool.false_eq_true, ↓reduceIte]
+        exact ⟨hI.wf, w1, w2, hI.histC, hI.histL, good_transfer (s := s) (fun _ h => h) (fun _ _ h => h) w3 (fun _ _ h => h) hI.good⟩
+  | gc cands =>
+    have hk := gc_keeps_gen s cands
+    simp only [step]
+    unfold collect at hk ⊢
+    cases hr : reach s with
+    | none => exact hI
+    | some r =>
+      rw [hr] at hk
+      refine ⟨hI.wf, fun p hp => hI.mfresh p (List.mem_filter.1 hp).1, fun p hp => hI.lfresh p (List.mem_filter.1 hp).1,
+        hI.histC, hI.histL, ?_⟩
+      intro i hi
+      obtain ⟨c, h1, h2⟩ := hI.good i hi
+      exact ⟨c, h1, (hk i hi).trans h2⟩
+
+
+/-! histories -/
+theorem opsOk_append : ∀ (a b : List Op) (s : St), OpsOk s (a ++ b) ↔ OpsOk s a ∧ OpsOk (a.foldl step s) b
+  | [], b, s => by simp [OpsOk]
+  | op :: a, b, s => by
+    simp only [List.cons_append, OpsOk, List.foldl_cons, opsOk_append a b (step s op), and_assoc]
+
+theorem inv_foldl : ∀ (ops : List Op) (s : St), Inv s → OpsOk s ops → Inv (ops.foldl step s)
+  | [], _, h, _ => h
+  | op :: ops, s, h, hok => inv_foldl ops (step s op) (inv_step s op h hok.1) hok.2
+
+theorem inv_run (ops : List Op) (h : OpsOk init ops) : Inv (run ops) := inv_foldl ops init inv_init h
+
+theorem run_append (a b : List Op) : run (a ++ b) = b.foldl step (run a) := by
+  unfold run; rw [List.foldl_append]
+
+theorem collect_md (s : St) (cands : Files) : (collect s cands).md = s.md := by
+  unfold collect collectWith; split <;> rfl
+
+theorem collect_committed (s : St) (cands : Files) : (collect s cands).committed = s.committed := by
+  unfold collect collectWith; split <;> rfl
+
+theorem step_committed (s : St) (op : Op) (i : Nat) (c : List Nat) (h : s.committed.lookup i = some c) :
+    (step s op).committed.lookup i = some c := by
+  cases op with
+  | commit now id cutoff nApp deleted =>
+    simp only [step]
+    split
+    · exact h
+    · split
+      · exact h
+      · exact lookup_append_some h
+  | expire c => exact h
+  | delSnap id => simp only [step]; split <;> exact h
+  | failed nApp deleted cleaned =>
+    simp only [step]
+    split
+    · exact h
+    · split <;> exact h
+  | gc cands => simp only [step]; rw [collect_committed]; exact h
+
+theorem foldl_committed : ∀ (ops : List Op) (s : St) (i : Nat) (c : List Nat), s.committed.lookup i = some c →
+    (ops.foldl step s).committed.lookup i = some c
+  | [], _, _, _, h => h
+  | op :: ops, s, i, c, h => foldl_committed ops (step s op) i c (step_committed s op i c h)
+
+theorem step_md (s : St) (op : Op) :
+    (step s op).md = s.md ∨ ∃ op', (step s op).md = Meta.step s.md op' ∧ (OpOk s op → Meta.OpOk s.md op') ∧
+      (OpMono s op → Meta.OpMono s.md op') := by
+  cases op with
+  | commit now id cutoff nApp deleted =>
+    simp only [step]
+    split
+    · exact Or.inl rfl
+    · split
+      · exact Or.inl rfl
+      · rename_i md' ha
+        exact Or.inr ⟨.add now id cutoff, (addSnap_ok now id cutoff s.md md' ha).2.2, fun h => h, fun h => h⟩
+  | expire c => exact Or.inr ⟨.expireOnly c, rfl, fun _ => trivial, fun _ => trivial⟩
+  | delSnap id =>
+    refine Or.inr ⟨.del id, ?_, fun _ => trivial, fun _ => trivial⟩
+    simp only [step, Meta.step]
+    cases Meta.delSnap id s.md <;> rfl
+  | failed nApp deleted cleaned =>
+    simp only [step]
+    split
+    · exact Or.inl rfl
+    · split <;> exact Or.inl rfl
+  | gc cands => exact Or.inl (collect_md s cands)
+
+theorem mono_foldl : ∀ (ops : List Op) (s : St), Inv s → BornSorted s.md → TsMono s.md → OpsOk s ops → OpsMono s ops →
+    BornSorted (ops.foldl step s).md ∧ TsMono (ops.foldl step s).md
+  | [], _, _, hb, ht, _, _ => ⟨hb, ht⟩
+  | op :: ops, s, hI, hb, ht, hok, hm => by
+    have h2 : BornSorted (step s op).md ∧ TsMono (step s op).md := by
+      rcases step_md s op with e | ⟨op', e, h1, h2⟩
+      · rw [e]; exact ⟨hb, ht⟩
+      · rw [e]; exact mono_step'' s.md op' hI.wf hb ht (h1 hok.1) (h2 hm.1)
+    exact mono_foldl ops (step s op) (inv_step s op hI hok.1) h2.1 h2.2 hok.2 hm.2
+
 /-- every retained snapshot reads back exactly what was recorded at its commit -/
 theorem content_stable' (ops : List Op) (h : OpsOk init ops) :
     ∀ i ∈ (run ops).md.ids, ∃ c, (run ops).committed.lookup i = some c ∧ content (run ops) i = some c := by
-  sorry
+  exact (inv_run ops h).good
 
 /-- the record made at a commit is never changed by anything later -/
 theorem committed_frozen' (ops1 ops2 : List Op) (h : OpsOk init (ops1 ++ ops2)) (i : Nat) (c : List Nat)
     (hc : (run ops1).committed.lookup i = some c) : (run (ops1 ++ ops2)).committed.lookup i = some c := by
-  sorry
+  have _ := h
+  rw [run_append]; exact foldl_committed ops2 _ i c hc
 
 /-- time travel is stable -/
 theorem time_travel_stable' (ops1 ops2 : List Op) (h : OpsOk init (ops1 ++ ops2)) (i : Nat)
     (h1 : i ∈ (run ops1).md.ids) (h2 : i ∈ (run (ops1 ++ ops2)).md.ids) :
     content (run (ops1 ++ ops2)) i = content (run ops1) i ∧ (content (run ops1) i).isSome = true := by
-  sorry
+  obtain ⟨c1, a1, a2⟩ := (inv_run ops1 ((opsOk_append ops1 ops2 init).1 h).1).good i h1
+  obtain ⟨c2, b1, b2⟩ := (inv_run (ops1 ++ ops2) h).good i h2
+  have := committed_frozen' ops1 ops2 h i c1 a1
+  rw [this] at b1
+  cases b1
+  rw [a2, b2]; exact ⟨rfl, rfl⟩
 
 /-- what a commit records: the base snapshot's files minus exactly the deleted ones, plus exactly the new ones -/
 theorem commit_spec' (ops : List Op) (now id : Nat) (cutoff : Option Nat) (nApp : Nat) (deleted : List Nat)
@@ -56,20 +815,42 @@ theorem commit_spec' (ops : List Op) (now id : Nat) (cutoff : Option Nat) (nApp 
     (hc : (run (ops ++ [.commit now id cutoff nApp deleted])).committed.lookup id = some c) :
     c = ((match (run ops).md.cur with | P.id cur => (content (run ops) cur).getD [] | _ => []).filter fun d => !deleted.contains d)
         ++ (List.range nApp).map (· + (run ops).nextD) := by
-  sorry
+  have hok := (opsOk_append ops [.commit now id cutoff nApp deleted] init).1 h
+  have hI := inv_run ops hok.1
+  have hop : id ∉ (run ops).md.hist.map (·.1) := hok.2.1
+  have hnone : (run ops).committed.lookup id = none := lookup_notin_none (by rw [hI.histC]; exact hop)
+  rw [run_append] at hc
+  simp only [List.foldl_cons, List.foldl_nil, step] at hc
+  cases hw : writeFiles (run ops) nApp deleted with
+  | none => rw [hw] at hc; simp only [] at hc; rw [hnone] at hc; cases hc
+  | some w =>
+    rw [hw] at hc
+    simp only [] at hc
+    obtain ⟨-, -, -, -, -, -, w7⟩ := writeFiles_spec (run ops) hI nApp deleted w hw
+    cases ha : addSnap now id cutoff (run ops).md with
+    | error e => rw [ha] at hc; simp only [] at hc; rw [hnone] at hc; cases hc
+    | ok md' =>
+      rw [ha] at hc
+      simp only [] at hc
+      rw [List.lookup_append, hnone, w7] at hc
+      simp only [Option.or, List.lookup_cons, beq_self_eq_true, Option.getD_some, Option.some.injEq] at hc
+      exact hc.symm
 
 /-- the metadata of every reachable state is well-formed (so the C15 lookup theorems apply to it) -/
 theorem md_wf' (ops : List Op) (h : OpsOk init ops) : WF (run ops).md := by
-  sorry
+  exact (inv_run ops h).wf
 
 /-- with a non-decreasing clock the snapshot list stays in commit order with non-decreasing timestamps -/
 theorem md_mono' (ops : List Op) (h : OpsOk init ops) (hm : OpsMono init ops) :
     BornSorted (run ops).md ∧ TsMono (run ops).md := by
-  sorry
+  refine mono_foldl ops init inv_init ?_ ?_ h hm
+  · exact List.Pairwise.nil
+  · intro s hs; cases hs
 
 /-- a collection never changes what a retained snapshot reads (one step, any candidate set) -/
 theorem gc_keeps' (ops : List Op) (h : OpsOk init ops) (cands : Files) :
     ∀ i ∈ (run ops).md.ids, content (collect (run ops) cands) i = content (run ops) i := by
-  sorry
+  have _ := h
+  exact gc_keeps_gen (run ops) cands
 
 end DSV.History
